@@ -16,7 +16,7 @@ demo() {
   d=$root/$prop/OUT/demo$letter
   ( cd "$d" || exit 3
     export THRIFTGO_REPO=$cw REPO=$cw
-    if [ -f run.sh ]; then timeout 1500 sh run.sh "$cw"
+    if [ -f run.sh ]; then timeout 1500 bash run.sh "$cw"
     elif ls *_test.go >/dev/null 2>&1 && [ ! -f main.go ]; then timeout 1500 go test -count=1 ./...
     else timeout 1500 go run . "$cw"; fi )
 }
